@@ -41,6 +41,7 @@ type Script struct {
 	Free    bool     `json:"free"`
 	Foreign bool     `json:"foreign"` // generated from a model with other constants: skipped steps are expected
 	Seed    int64    `json:"seed"`
+	Again   bool     `json:"again"`   // after Close returned: two late Writes and a second Close
 	NoAlert bool     `json:"noalert"` // the writer is created with a nil alerter: drops are not reported to anybody (no accounting), everything else holds
 	Werr    int      `json:"werr"`    // > 0: the wrapped writer's Werr-th Write returns an error (once): delivery goes on all the same
 }
@@ -74,7 +75,13 @@ func obs(e ev) {
 // payload: the caller's buffer for message m. Lengths vary (below and above the pooled 500 bytes); every fourth message
 // lives in a buffer whose CAPACITY is far larger than its length and than the 64 KiB recycling limit (a reused scratch
 // buffer): the diode must deliver the bytes as they were at Write whatever the buffer looks like.
+// emptyMsg: the one message of a script that is EMPTY (P1's second): a zero-length Write is a Write like any other
+const emptyMsg = 102
+
 func payload(m int) []byte {
+	if m == emptyMsg {
+		return []byte{}
+	}
 	n := 8 + (m%3)*300
 	if m%7 == 3 {
 		n = 70000 // longer than the 64 KiB above which the writer does not recycle its copy
@@ -92,6 +99,9 @@ func payload(m int) []byte {
 }
 
 func identify(p []byte) int {
+	if len(p) == 0 {
+		return emptyMsg
+	}
 	if len(p) < 3 || p[0] != 'm' {
 		return -1
 	}
@@ -401,6 +411,13 @@ func play(sc Script) (hung bool) {
 		r.w.Close()
 		r.closed = true
 		obs(ev{"a": "CloseRet", "wclosed": r.rw.closed})
+		if sc.Again {
+			// Close has returned: the writer is finished. Writes that arrive later have nowhere to go and a second Close has
+			// nothing to do - in particular nobody may hand anything to the wrapped writer any more (a DStart now is a violation)
+			r.w.Write(payload(9001))
+			r.w.Write(payload(9004))
+			r.w.Close()
+		}
 	})
 	r.cancelled = false
 	r.refresh()
